@@ -58,7 +58,11 @@ func traverse(context Context, matchingNode *CandidateNode, operation *Operation
 
 	case SequenceNode:
 		log.Debug("its a sequence of %v things!", len(matchingNode.Content))
-		return traverseArray(matchingNode, operation, operation.Preferences.(traversePreferences))
+		arrayPrefs := operation.Preferences.(traversePreferences)
+		if context.DontAutoCreate {
+			arrayPrefs.DontAutoCreate = true
+		}
+		return traverseArray(matchingNode, operation, arrayPrefs)
 
 	case AliasNode:
 		log.Debug("its an alias!")
